@@ -13,7 +13,7 @@ request : `<ops>|<alphas>|<weights>|<relu nodes>|<inputs>`   (ops / alphas as in
             row), b = […] or `-`, BatchNorm kept as a sub-layer: mu/gamma/beta = […] or `-`
             (a standalone BatchNorm node carries only mu/gamma/beta)
   relu nodes : `[n,…]`   inputs : `<n>=[…];…`
-answer  : `sup=<0|1> pit=[…] exp=[…] seed=[…]` (values of the last node under `pitStep`, `expStep`
+answer  : `sup=<0|1> pit=[…] exp=[…] seed=[…]` (values of the output nodes under `pitStep`, `expStep`
           and the mask-free `seedStep`) or `err:…`
 -/
 open PlinioVerif PlinioVerif.Proto PlinioVerif.PIT
@@ -81,9 +81,11 @@ def handle (line : String) : String :=
         let inp := fun n => ((inputs.find? (·.1 == n)).map (·.2)).getD []
         let ms := aliveMasks p labels alphaOf
         let r := runBoth (semOf ws relu) ms inp p.zipIdx
-        let last := p.length - 1
+        -- what the network returns: the values of all its output nodes, concatenated in program order
+        let outs := p.zipIdx.filterMap fun (op, n) => if op.isOutput then some n else none
+        let ret := fun (vs : List (List Int)) => (outs.map (gv vs)).flatten
         let sd := runSeed (semOf ws relu) inp p.zipIdx
-        s!"sup={showBool (supported p)} pit={showList toString (gv r.1 last)} exp={showList toString (gv r.2 last)} seed={showList toString (gv sd last)}"
+        s!"sup={showBool (supported p)} pit={showList toString (ret r.1)} exp={showList toString (ret r.2)} seed={showList toString (ret sd)}"
       | _, _ => "bad-request:weights"
   | _ => "bad-request"
 
